@@ -453,7 +453,11 @@ def run(ctx):
         "rule": "one evaluation = one (scenario, k) run with the k-th event failing (k-th allocation: operator new or GMP; k-th maybe_abandon() "
                 "checkpoint; deterministic timeout at the weight of the k-th checkpoint) or one rejected call; distinct by (scenario, k) / by "
                 "journal line; non-trivial = the fault actually fired inside the armed call, resp. the call was rejected with an exception. "
-                + ("quick tier: every k of the 40 protocol-level scenarios, about 60 evenly spaced k (offset by the seed) of every other scenario" if quick
+                + ("quick tier: every k — each in two variants: assign-from-fresh + use + destroy, and destroy-as-is — of the scenarios whose operation "
+                   "deletes and re-allocates owned sub-objects (protocol scenarios, ascii_load into non-fresh receivers, operator=, m_swap, PIP tree "
+                   "clones, add_constraint after a solve, powerset add_disjunct/collapse, CO_Tree), about 60 evenly spaced k (offset by the seed) "
+                   "of every other scenario; rejected calls: every ill-formed argument class, and for system-valued arguments the offending "
+                   "element at every position after elements that do change the receiver" if quick
                    else "thorough tier: every k of every scenario"),
         "samples": samples[:10],
         "traces_validated_against_impl": stats["machine_runs_matching_model"],
